@@ -72,11 +72,20 @@ def make_run(which):
     return run
 
 
+SETLIKE = ["{q0}", "{q1}", "{q0,q1}", "{}", "{q2}", "{q1,q2}", "{q0,q2}", "{q0,q1,q2}", "{{q0},{q1}}", "{{q0,q1}}", "q0", "q1", "{q0,q1},{q2}", "{q0},{q1,q2}"]
+
+
 @st.composite
 def cases(draw, tier):
     k = draw(st.integers(0, 5))
     if k == 0:
         return {"dfa": draw(G.dfa_specs(max_states=6))}
+    if k == 2 and draw(st.booleans()):
+        return {"dfa": draw(G.routes_dfa_specs())}
+    if k == 3 and draw(st.booleans()):
+        # state names that look like sets of other names (the output of the subset construction is minimised in the notebooks): classes of such states
+        # get names built from names that are themselves set-like
+        return {"dfa": draw(G.inflated_dfa_specs(max_states=4, max_sigma=2, pool=SETLIKE))}
     if k == 1:
         # larger automata: refinement orders with waiting blocks of three or more states need at least six states
         return {"dfa": draw(G.dfa_specs(min_states=6, max_states=9 if tier == "quick" else 11, sigma=draw(st.sampled_from([["a", "b"], ["a", "b"], ["a"], ["a", "b", "c"]]))))}
@@ -98,4 +107,29 @@ CLAUSES = [
     Clause("quotient", cases, make_run("quotient"), quick=800, thorough=8000, exhaustive=ex, rule="dfa_quotient: " + RULE),
     Clause("hopcroft", cases, make_run("hopcroft"), quick=800, thorough=8000, exhaustive=ex, rule="dfa_hopfcroft: " + RULE),
 ]
+
+
+def run_large(case):
+    out = {}
+    for which in FUNCS:
+        out[which] = make_run(which)(case)["out"]["result_states"]
+    return {"nt": True, "cls": [case["family"]], "out": out}
+
+
+def ex_large(tier):
+    ks = [12, 13] if tier == "quick" else [10, 11, 12, 13, 14, 16]
+    ks1 = [9] if tier == "quick" else [7, 12]
+
+    def gen():
+        for k in ks:
+            yield {"dfa": G.pair_universal_dfa2(k), "family": "accepting_base_states"}
+        for k in ks1:
+            yield {"dfa": G.pair_universal_dfa(k), "family": "counting_base_states"}
+    return ("pair-universal DFAs: k pairwise distinguishable base states and one state per ordered pair of them (k in %r: 300-530 states; counting variant k in %r)" % (ks, ks1), gen())
+
+
+CLAUSES.append(Clause("large", None, run_large, quick=0, thorough=0, exhaustive=ex_large, watchdog=300,
+                      rule="all three minimisers on structured large DFAs (130-530 states, almost minimal): k pairwise distinguishable base states, a state for every ordered pair "
+                           "of base states (a -> i-th, b -> j-th base state) that differs from the other pair states only in the classes of its successors, "
+                           "a spine making every state reachable; same predicates as for the random DFAs; every case is large by construction"))
 KNOWN_PREDICATES = {}
